@@ -218,8 +218,39 @@ class Norm:
             return ("newaxis",)
         return self.key(s)
 
+    @staticmethod
+    def rows_mask_expr(idx):
+        """M if idx enumerates the rows where the boolean array M holds: np.flatnonzero(M) / np.where(M)[0] / np.nonzero(M)[0]"""
+        if isinstance(idx, ast.Call) and ast.unparse(idx.func) == "np.flatnonzero" and len(idx.args) == 1 and not idx.keywords:
+            return idx.args[0]
+        if isinstance(idx, ast.Subscript) and isinstance(idx.value, ast.Call) and ast.unparse(idx.value.func) in ("np.where", "np.nonzero") and len(idx.value.args) == 1 \
+                and isinstance(idx.slice, ast.Constant) and idx.slice.value == 0:
+            return idx.value.args[0]
+        return None
+
     def n_Subscript(self, e):
         v = e.value
+        sl = e.slice
+        if isinstance(sl, ast.Name) and sl.id in self.env and sl.id not in self._stack:
+            sl_def = self.env[sl.id]
+        else:
+            sl_def = sl
+        # X[A[k]] == X[A][k] for an index vector A that enumerates rows
+        if isinstance(sl_def, ast.Subscript) and not isinstance(sl_def.slice, (ast.Slice, ast.Tuple)):
+            a = sl_def.value
+            a_def = self.env.get(a.id, a) if isinstance(a, ast.Name) and a.id not in self._stack else a
+            if self.rows_mask_expr(a_def) is not None or (isinstance(a_def, ast.Call) and ast.unparse(a_def.func) == "np.arange" and len(a_def.args) == 1):
+                return self.n(ast.Subscript(value=ast.Subscript(value=v, slice=a_def, ctx=ast.Load()), slice=sl_def.slice, ctx=ast.Load()))
+        # X[np.flatnonzero(M)] == X[M]
+        m = self.rows_mask_expr(sl_def)
+        if m is not None:
+            return Poly.atom(("idx", self.key(v), self.slice_key(m)))
+        # X[np.arange(len(X))] == X
+        if isinstance(sl_def, ast.Call) and ast.unparse(sl_def.func) == "np.arange" and len(sl_def.args) == 1 and not sl_def.keywords:
+            L = ast.unparse(sl_def.args[0]).replace(" ", "")
+            xv = ast.unparse(v).replace(" ", "")
+            if L in (f"{xv}.size", f"len({xv})", f"{xv}.shape[0]"):
+                return self.n(v)
         if isinstance(v, ast.Call):
             nm = ast.unparse(v.func)
             if nm == "np.arange" and len(v.args) == 1 and not isinstance(e.slice, (ast.Slice, ast.Tuple, ast.Constant)):
